@@ -31,11 +31,11 @@ macro "iso_ring" d:term : tactic => `(tactic| (
   refine iso6_of_pattern _ _ _ _ _ _ ?_ ?_ ?_ ?_ <;> ring))
 /-- isotropic pattern with denominators -/
 macro "iso_field" : tactic => `(tactic| (
-  refine iso6_of_pattern _ _ _ _ _ _ ?_ ?_ ?_ ?_ <;> first | trivial | ring1 | (field_simp; ring1) | field_simp))
+  refine iso6_of_pattern _ _ _ _ _ _ ?_ ?_ ?_ ?_ <;> first | exact trivial | (with_reducible rfl) | ring1 | (field_simp; ring1) | field_simp))
 /-- same with denominators (the `≠ 0` / positivity facts must be in the context) -/
 macro "tensor_field" : tactic => `(tactic| (
   repeat' apply And.intro
-  all_goals first | trivial | ring1 | (field_simp; ring1) | field_simp))
+  all_goals first | exact trivial | (with_reducible rfl) | ring1 | (field_simp; ring1) | field_simp))
 
 end T2
 open T2
@@ -75,38 +75,38 @@ theorem SphLoc_def (K0 G0 K1 G1 : K) (hK0 : 0 < K0) (hG0 : 0 < G0) (hK1 : 0 < K1
   · linear_combination (1 / 3 : K) * hA + (2 / 3 : K) * hG
   · linear_combination (1 / 3 : K) * hA - (1 / 3 : K) * hG
   · linear_combination (1 / 3 : K) * hA - (1 / 3 : K) * hG
-  · first | trivial | ring1
-  · first | trivial | ring1
-  · first | trivial | ring1
+  · first | exact trivial | (with_reducible rfl) | ring1
+  · first | exact trivial | (with_reducible rfl) | ring1
+  · first | exact trivial | (with_reducible rfl) | ring1
   · linear_combination (1 / 3 : K) * hA - (1 / 3 : K) * hG
   · linear_combination (1 / 3 : K) * hA + (2 / 3 : K) * hG
   · linear_combination (1 / 3 : K) * hA - (1 / 3 : K) * hG
-  · first | trivial | ring1
-  · first | trivial | ring1
-  · first | trivial | ring1
+  · first | exact trivial | (with_reducible rfl) | ring1
+  · first | exact trivial | (with_reducible rfl) | ring1
+  · first | exact trivial | (with_reducible rfl) | ring1
   · linear_combination (1 / 3 : K) * hA - (1 / 3 : K) * hG
   · linear_combination (1 / 3 : K) * hA - (1 / 3 : K) * hG
   · linear_combination (1 / 3 : K) * hA + (2 / 3 : K) * hG
-  · first | trivial | ring1
-  · first | trivial | ring1
-  · first | trivial | ring1
-  · first | trivial | ring1
-  · first | trivial | ring1
-  · first | trivial | ring1
+  · first | exact trivial | (with_reducible rfl) | ring1
+  · first | exact trivial | (with_reducible rfl) | ring1
+  · first | exact trivial | (with_reducible rfl) | ring1
+  · first | exact trivial | (with_reducible rfl) | ring1
+  · first | exact trivial | (with_reducible rfl) | ring1
+  · first | exact trivial | (with_reducible rfl) | ring1
   · linear_combination hG
-  · first | trivial | ring1
-  · first | trivial | ring1
-  · first | trivial | ring1
-  · first | trivial | ring1
-  · first | trivial | ring1
-  · first | trivial | ring1
+  · first | exact trivial | (with_reducible rfl) | ring1
+  · first | exact trivial | (with_reducible rfl) | ring1
+  · first | exact trivial | (with_reducible rfl) | ring1
+  · first | exact trivial | (with_reducible rfl) | ring1
+  · first | exact trivial | (with_reducible rfl) | ring1
+  · first | exact trivial | (with_reducible rfl) | ring1
   · linear_combination hG
-  · first | trivial | ring1
-  · first | trivial | ring1
-  · first | trivial | ring1
-  · first | trivial | ring1
-  · first | trivial | ring1
-  · first | trivial | ring1
+  · first | exact trivial | (with_reducible rfl) | ring1
+  · first | exact trivial | (with_reducible rfl) | ring1
+  · first | exact trivial | (with_reducible rfl) | ring1
+  · first | exact trivial | (with_reducible rfl) | ring1
+  · first | exact trivial | (with_reducible rfl) | ring1
+  · first | exact trivial | (with_reducible rfl) | ring1
   · linear_combination hG
 
 /-! ## tensorial dilute scheme (`computeDiluteScheme`) -/
